@@ -40,7 +40,14 @@ structure Shell where
   attrs : List Attr
 deriving Repr
 
-def Shell.wrap (s : Shell) (kid : Node) : Node := .elem s.id s.tag s.attrs [kid]
+/-- `dom.IsVoidElement` on an element: by name only, so an SVG / MathML element that carries the name
+of a void HTML element counts (the parser gives only such elements children) -/
+def domVoid (tag : String) : Bool :=
+  ["area", "base", "br", "col", "embed", "hr", "img", "input", "keygen", "link", "meta", "param", "source", "track", "wbr"].contains tag
+
+/-- `dom.AppendChild(shallowClone, kid)`: appending to a void element does nothing -/
+def Shell.wrap (s : Shell) (kid : Node) : Node :=
+  if domVoid s.tag then .elem s.id s.tag s.attrs [] else .elem s.id s.tag s.attrs [kid]
 
 /-- from the top of the pruned tree down to the nearest common ancestor: a pruned node that is
 not listed and has exactly one child has all listed nodes inside that child.  Returns the
